@@ -11,45 +11,60 @@ package main
 //@ poolinv ipfixBuffer x: iskind(x, bytes) && typeid(x) == tyof([]byte) && len(anybytes(x)) == opts.IPFIXUDPSize && cap(anybytes(x)) >= opts.IPFIXUDPSize
 
 //@ func (*IPFIX).ipfixWorker
+//@   opt ownership datagram, mirror and encode buffers: released or handed-over buffers are not touched again; published values are fresh copies
 //@   requires opts != nil && opts.IPFIXUDPSize >= 0
 //@   opt nonterminating
 //@   opt allocbound 65535   // copies of the received datagram and of its JSON encoding
 //@   modifies i.stats.DecodedCount, mCache
 //@   loop 1
 //@     invariant opts != nil && opts == old(opts) && opts.IPFIXUDPSize >= 0 && buf != nil && i != nil && cap(msg.body) >= opts.IPFIXUDPSize
+//@     step [once] sends_ipfixMQCh <= iter(sends_ipfixMQCh) + 1
+//@     step [records] sends_ipfixMQCh == iter(sends_ipfixMQCh) + 1 ==> decodedMsg != nil && len(decodedMsg.DataSets) > 0
+//@     step [decoded] (decodedMsg != nil ==> i.stats.DecodedCount == (iter(i.stats.DecodedCount) + 1) % 18446744073709551616) && (decodedMsg == nil ==> i.stats.DecodedCount == iter(i.stats.DecodedCount))
 
 //@ chaninv netflowV9UDPCh m: m.raddr != nil && len(m.body) <= 65507 && cap(m.body) >= opts.NetflowV9UDPSize && opts != nil && opts.NetflowV9UDPSize >= 0 && wellFormed9(mCacheNF9)
 //@ poolinv netflowV9Buffer x: iskind(x, bytes) && typeid(x) == tyof([]byte) && len(anybytes(x)) == opts.NetflowV9UDPSize && cap(anybytes(x)) >= opts.NetflowV9UDPSize
 
 //@ func (*NetflowV9).netflowV9Worker
+//@   opt ownership datagram, mirror and encode buffers: released or handed-over buffers are not touched again; published values are fresh copies
 //@   requires opts != nil && opts.NetflowV9UDPSize >= 0
 //@   opt nonterminating
 //@   opt allocbound 65535
 //@   modifies i.stats.DecodedCount, mCacheNF9
 //@   loop 1
 //@     invariant opts != nil && opts == old(opts) && opts.NetflowV9UDPSize >= 0 && buf != nil && i != nil && cap(msg.body) >= opts.NetflowV9UDPSize
+//@     step [once] sends_netflowV9MQCh <= iter(sends_netflowV9MQCh) + 1
+//@     step [records] sends_netflowV9MQCh == iter(sends_netflowV9MQCh) + 1 ==> decodedMsg != nil && decodedMsg.DataSets != nil
+//@     step [decoded] (decodedMsg != nil ==> i.stats.DecodedCount == (iter(i.stats.DecodedCount) + 1) % 18446744073709551616) && (decodedMsg == nil ==> i.stats.DecodedCount == iter(i.stats.DecodedCount))
 
 //@ chaninv netflowV5UDPCh m: m.raddr != nil && len(m.body) <= 65507 && cap(m.body) >= opts.NetflowV5UDPSize && opts != nil && opts.NetflowV5UDPSize >= 0
 //@ poolinv netflowV5Buffer x: iskind(x, bytes) && typeid(x) == tyof([]byte) && len(anybytes(x)) == opts.NetflowV5UDPSize && cap(anybytes(x)) >= opts.NetflowV5UDPSize
 
 //@ func (*NetflowV5).netflowV5Worker
+//@   opt ownership datagram, mirror and encode buffers: released or handed-over buffers are not touched again; published values are fresh copies
 //@   requires opts != nil && opts.NetflowV5UDPSize >= 0
 //@   opt nonterminating
 //@   opt allocbound 65535
 //@   modifies i.stats.DecodedCount
 //@   loop 1
 //@     invariant opts != nil && opts == old(opts) && opts.NetflowV5UDPSize >= 0 && buf != nil && i != nil && cap(msg.body) >= opts.NetflowV5UDPSize
+//@     step [once] sends_netflowV5MQCh <= iter(sends_netflowV5MQCh) + 1
+//@     step [decoded] (decodedMsg != nil ==> i.stats.DecodedCount == (iter(i.stats.DecodedCount) + 1) % 18446744073709551616) && (decodedMsg == nil ==> i.stats.DecodedCount == iter(i.stats.DecodedCount))
 
 //@ chaninv sFlowUDPCh m: m.raddr != nil && len(m.body) <= 65507 && len(m.body) <= opts.SFlowUDPSize && cap(m.body) >= opts.SFlowUDPSize && opts != nil && opts.SFlowUDPSize >= 0
 //@ poolinv sFlowBuffer x: iskind(x, bytes) && typeid(x) == tyof([]byte) && len(anybytes(x)) == opts.SFlowUDPSize && cap(anybytes(x)) >= opts.SFlowUDPSize
 
 //@ func (*SFlow).sFlowWorker
+//@   opt ownership datagram, mirror and encode buffers: released or handed-over buffers are not touched again; published values are fresh copies
 //@   requires opts != nil && opts.SFlowUDPSize >= 0
 //@   opt nonterminating
 //@   opt allocbound 65535
 //@   modifies s.stats.DecodedCount
 //@   loop 1
 //@     invariant opts != nil && opts == old(opts) && opts.SFlowUDPSize >= 0 && s != nil
+//@     step [once] sends_sFlowMQCh <= iter(sends_sFlowMQCh) + 1
+//@     step [decoded] s.stats.DecodedCount == iter(s.stats.DecodedCount) || s.stats.DecodedCount == (iter(s.stats.DecodedCount) + 1) % 18446744073709551616
+//@     step [both] sends_sFlowMQCh == iter(sends_sFlowMQCh) + 1 ==> s.stats.DecodedCount == (iter(s.stats.DecodedCount) + 1) % 18446744073709551616
 
 // ---- receive loops: every datagram handed to the workers satisfies the channel invariant -------------
 
@@ -62,6 +77,7 @@ package main
 //@     decreases i.workers - n
 //@   loop 2
 //@     invariant i != nil && opts != nil && opts == old(opts) && opts.IPFIXUDPSize >= 0 && opts.IPFIXUDPSize <= 1048576 && conn != nil && wellFormed(mCache)
+//@     step [received] (sends_ipfixUDPCh == iter(sends_ipfixUDPCh) + 1 && i.stats.UDPCount == (iter(i.stats.UDPCount) + 1) % 18446744073709551616) || (sends_ipfixUDPCh == iter(sends_ipfixUDPCh) && i.stats.UDPCount == iter(i.stats.UDPCount))
 
 //@ func (*NetflowV9).run
 //@   requires opts != nil && opts.NetflowV9UDPSize >= 0
@@ -72,6 +88,7 @@ package main
 //@     decreases i.workers - n
 //@   loop 2
 //@     invariant i != nil && opts != nil && opts == old(opts) && opts.NetflowV9UDPSize >= 0 && conn != nil && wellFormed9(mCacheNF9)
+//@     step [received] (sends_netflowV9UDPCh == iter(sends_netflowV9UDPCh) + 1 && i.stats.UDPCount == (iter(i.stats.UDPCount) + 1) % 18446744073709551616) || (sends_netflowV9UDPCh == iter(sends_netflowV9UDPCh) && i.stats.UDPCount == iter(i.stats.UDPCount))
 
 //@ func (*NetflowV5).run
 //@   requires opts != nil && opts.NetflowV5UDPSize >= 0
@@ -82,6 +99,7 @@ package main
 //@     decreases i.workers - n
 //@   loop 2
 //@     invariant i != nil && opts != nil && opts == old(opts) && opts.NetflowV5UDPSize >= 0 && conn != nil
+//@     step [received] (sends_netflowV5UDPCh == iter(sends_netflowV5UDPCh) + 1 && i.stats.UDPCount == (iter(i.stats.UDPCount) + 1) % 18446744073709551616) || (sends_netflowV5UDPCh == iter(sends_netflowV5UDPCh) && i.stats.UDPCount == iter(i.stats.UDPCount))
 
 //@ func (*SFlow).run
 //@   requires opts != nil && opts.SFlowUDPSize >= 0 && opts.SFlowUDPSize <= 1048576
@@ -92,6 +110,7 @@ package main
 //@     decreases s.workers - i
 //@   loop 2
 //@     invariant s != nil && opts != nil && opts == old(opts) && opts.SFlowUDPSize >= 0 && opts.SFlowUDPSize <= 1048576 && s.conn != nil
+//@     step [received] (sends_sFlowUDPCh == iter(sends_sFlowUDPCh) + 1 && s.stats.UDPCount == (iter(s.stats.UDPCount) + 1) % 18446744073709551616) || (sends_sFlowUDPCh == iter(sends_sFlowUDPCh) && s.stats.UDPCount == iter(s.stats.UDPCount))
 
 
 // ---- mirroring (C16) ---------------------------------------------------------------------------------
